@@ -758,6 +758,18 @@ Definition enddef_case (user : option info) (env hook safe : option (list byte))
   (nums (reported_after_open user env hook safe np), nums (fst r), lay_summary (snd r)).
 Definition tiles_summary (d : disk) (pairs : list (Z * Z)) : list (Z * list Z) :=
   map (fun p => (fst p, dk_read d (fst p) (snd p))) pairs.
+Fixpoint adj_disjoint (l : list triple) : bool :=
+  match l with
+  | a :: r => match r with
+              | b :: _ => (t_off a + t_len a <=? t_off b) && adj_disjoint r
+              | [] => true
+              end
+  | [] => true
+  end.
+(* are the gathered pairs pairwise disjoint?  (otherwise the result depends on the order in
+   which the unstable sort leaves equal/overlapping pairs and the model's order is only one of them) *)
+Definition pairs_disjoint (ps : list (Z * Z)) : list Z :=
+  [if adj_disjoint (sort_triples (mk_triples (filter (fun p => 0 <? snd p) ps) 0)) then 1 else 0].
 ''' % '; '.join(COQ_KEYS)
 
 
